@@ -118,6 +118,114 @@ pub fn gen(prop: &str, tier: &str, seed: u64, out: &mut Vec<String>) {
                 }
             }
         }
+        "C11" => {
+            for &bs in &[0u32, 1, 2] {
+                let sizes: Vec<u64> = hash_sizes(bs, 3, 20_000);
+                for size in sizes {
+                    let b = crate::gen2::blob_desc(&mut r, size);
+                    let chunks = (size + 1023) / 1024;
+                    let mut qs = crate::gen2::query_classes(&mut r, chunks, bs);
+                    qs.truncate(if t { 10 } else { 5 });
+                    for q in qs {
+                        let ql = nat_list(&q);
+                        let src = format!("{b}/{bs}/{ql}");
+                        let bd = item_boundaries(size, bs, &q);
+                        // candidate cut points: every item boundary and +-1 around it
+                        let mut cand: Vec<u64> = bd.iter().flat_map(|x| [x.saturating_sub(1), *x, x + 1]).collect();
+                        cand.sort();
+                        cand.dedup();
+                        let total = *bd.last().unwrap();
+                        let mut cutsets: Vec<String> = vec!["e1".into(), "e1p".into(), "e7".into(), "e63p".into(), "e64".into(), "e65".into(), "e1000p".into(), "c-p".into()];
+                        cutsets.push(format!("c{}", nat_list(&bd).replace('-', "")));
+                        cutsets.push(format!("c{}p", nat_list(&cand).replace('-', "")));
+                        let nrand = if t { 12 } else { 3 };
+                        for _ in 0..nrand {
+                            let sub: Vec<u64> = cand.iter().copied().filter(|_| r.chance(1, 2)).collect();
+                            cutsets.push(format!("c{}{}", nat_list(&sub).replace('-', ""), if r.chance(1, 2) { "p" } else { "" }));
+                        }
+                        if t && cand.len() <= 12 {
+                            for s in crate::gen1::subsets(&cand) {
+                                cutsets.push(format!("c{}", nat_list(&s).replace('-', "")));
+                            }
+                        }
+                        for cs in &cutsets {
+                            if !t && r.chance(1, 2) {
+                                continue;
+                            }
+                            let fl = if r.chance(1, 2) { "sync" } else { "fsm" };
+                            // honest, truncated, tampered
+                            let expr = match r.below(4) {
+                                0 | 1 => "0:0:$".to_string(),
+                                2 => format!("0:0:{}", r.below(total + 1)),
+                                _ => format!("0:0:$~{}^{}", r.below(total + 1), 1 + r.below(255)),
+                            };
+                            out.push(format!("fragdec {fl} {cs} {b} {size} {bs} {ql} {src} {expr}"));
+                        }
+                    }
+                    // data source fragmented: outboard creation and the encoder
+                    for cs in ["e1", "e1p", "e1023", "e1024p", "e1025", "e4096p", "c1,2,3,1024,2047"] {
+                        for fl in ["sync", "fsm"] {
+                            for order in ["pre", "post"] {
+                                if !t && r.chance(1, 2) {
+                                    continue;
+                                }
+                                out.push(format!("fragob {fl} {cs} {b} {bs} {order}"));
+                            }
+                        }
+                    }
+                    for m in [1u64, 7, 1023, 1024, 1025, 5000] {
+                        let q = random_ranges(&mut r, chunks + 1, 4);
+                        out.push(format!("fragenc {m} {b} {bs} {} -", nat_list(&q)));
+                    }
+                }
+            }
+        }
+        "C19" => {
+            let nums: Vec<u64> = vec![0, 1, 127, 128, 16383, 16384, 1 << 32, (1 << 53) + 1, 1 << 63, u64::MAX, u64::MAX - 1];
+            let lens: Vec<u64> = vec![0, 1, 127, 128, 300, 16383, 16384, 65535, 65536];
+            let kinds = ["NotFound", "PermissionDenied", "ConnectionRefused", "ConnectionReset", "ConnectionAborted", "NotConnected",
+                "AddrInUse", "BrokenPipe", "AlreadyExists", "WouldBlock", "InvalidInput", "InvalidData", "TimedOut", "WriteZero",
+                "Interrupted", "Unsupported", "UnexpectedEof", "OutOfMemory", "Other"];
+            let msgs: Vec<String> = vec!["".into(), "plain".into(), "with \"quotes\" and \\ backslash".into(), "tab\tnewline\ncr\r".into(),
+                "ctl \u{1} \u{8} \u{c} \u{1f} \u{7f}".into(), "non-ascii: äöü € 日本 🦀".into(), "colon:in:message".into(), "a".repeat(300)];
+            let hexs = |s: &str| -> String { if s.is_empty() { "-".into() } else { s.bytes().map(|b| format!("{:02x}", b)).collect() } };
+            let mut n2 = nums.clone();
+            for _ in 0..if t { 200 } else { 40 } {
+                n2.push(r.next() >> r.below(64));
+            }
+            for &n in &n2 {
+                out.push(format!("serde node:{n}"));
+                out.push(format!("serde chunk:{n}"));
+                out.push(format!("serde parent:{n}:{}", r.below(1000)));
+                out.push(format!("serde content:parent:{n}:{}", r.below(1000)));
+                out.push(format!("serde item:parent:{n}:{}", r.below(1000)));
+                out.push(format!("serde item:size:{n}"));
+                for e in ["phm", "lhm", "pw", "lw"] {
+                    out.push(format!("serde err:{e}:{n}"));
+                    out.push(format!("serde item:error:{e}:{n}"));
+                }
+            }
+            let mut l2 = lens.clone();
+            for _ in 0..if t { 100 } else { 20 } {
+                l2.push(r.below(70000));
+            }
+            for &len in &l2 {
+                let off = *r.pick(&n2);
+                let seed = r.below(1000);
+                out.push(format!("serde leaf:{off}:{len}:{seed}"));
+                out.push(format!("serde content:leaf:{off}:{len}:{seed}"));
+                out.push(format!("serde item:leaf:{off}:{len}:{seed}"));
+            }
+            out.push("serde err:sm".into());
+            out.push("serde item:error:sm".into());
+            out.push("serde item:done".into());
+            for k in kinds {
+                for m in &msgs {
+                    out.push(format!("serde err:io:{k}:{}", hexs(m)));
+                    out.push(format!("serde item:error:io:{k}:{}", hexs(m)));
+                }
+            }
+        }
         _ => {}
     }
 }
